@@ -6,6 +6,7 @@ Inputs: corpus sample + targeted modules (if/else orientation with early exits a
 comprehension forms, blank-line layouts, nested abstractions).
 """
 import itertools
+import textwrap
 import random
 
 from . import pipeline as P
@@ -76,8 +77,31 @@ def fallback_family():
     return out
 
 
-TARGETED = TARGETED + orientation_family() + fallback_family()
-OPTS = [{}, {"safe": True}, {"keep_imports": True}, {"safe": True, "keep_imports": True}]
+def wrapping_family():
+    """nested statements whose lines are a little longer than a short line-length setting: the wrapping step sees an enclosing statement at the
+    full width and its nested statements at the width left after their indentation"""
+    out = []
+    for limit in (60, 79):
+        for depth in (1, 2, 3, 4):
+            indent = 4 * (depth + 1)
+            for extra in sorted({1, 2, indent - 1, indent, indent + 1}):
+                target = limit + extra
+                prefix = "result = compute(first, "
+                k = target - indent - len(prefix) - 1
+                if k < 1:
+                    continue
+                arg = "a" * k
+                head = "".join("    " * (d + 1) + f"if flag_{d}:\n" for d in range(depth))
+                body = " " * indent + prefix + arg + ")\n" + " " * indent + "return result\n"
+                out.append("def run(" + ", ".join(f"flag_{d}" for d in range(depth)) + f", first, {arg}=0):\n" + head + body + "    return None\n\n\nprint(run)\n")
+    return out
+
+
+# unreachable statements after a return inside nested if blocks: both orientations of the if/else swap were "preferred" (alternated forever)
+TARGETED = TARGETED + ["import sys\n\n\ndef run(a, b, log):\n    if log:\n        if a:\n            if b:\n                return 1\n                print(a)\n                print(b)\n                log(a)\n"
+                       "            return 2\n            print(b)\n            print(a)\n            log(b)\n        log(a, b)\n    return 3\n\n\nsys.exit(run(*sys.argv))\n"]
+TARGETED = TARGETED + orientation_family() + fallback_family() + wrapping_family()
+OPTS = [{}, {"safe": True}, {"keep_imports": True}, {"safe": True, "keep_imports": True}, {"max_line_length": 60}, {"max_line_length": 79, "safe": True}]
 N_APPLICATIONS = 6
 BUDGET = 5
 
@@ -118,6 +142,7 @@ def run(tier, seed):
     n = 110 if tier == "quick" else len(corpus)
     inputs = TARGETED + rnd.sample(corpus, n)
     jobs = [(x, kw) for x in inputs for kw in (OPTS if tier == "thorough" else OPTS[:1] + [rnd.choice(OPTS[1:])])]
+    jobs += [(x, kw) for x in wrapping_family() for kw in OPTS[4:] if (x, kw) not in jobs]
     res = P.pool_map(work, jobs, chunksize=1)
     fl = []
     evals = 0
